@@ -82,7 +82,10 @@ class R:
         t = self.u8()
         if t == 255:
             n = self.u8()
-            return self.take(n).decode('latin-1')
+            name = self.take(n).decode('latin-1')
+            if name in RESERVED:
+                raise Bad(f'non-canonical: reserved entrypoint {name!r} spelled out instead of its tag')
+            return name
         if t < len(RESERVED):
             return RESERVED[t]
         raise Bad('entrypoint tag')
